@@ -23,7 +23,12 @@ class AbortInjector:
         # runs Python-level signal handlers in pure-Python code - RESUME (function entry) and JUMP_BACKWARD (loop back-edge);
         # an exception raised there is looked up in the exception table with that instruction's offset, exactly as for a
         # real handler.
+        # "aftercall": the instruction that follows a CALL which ran C code only (no Python frame was entered): CPython 3.12 checks
+        # the eval breaker at the end of such a CALL, so a handler's exception surfaces after the C function (e.g. sqlite3's
+        # commit) has returned and before anything else in the frame runs.  Only points whose exception-table handler is
+        # the same as the CALL's are used (the real exception is looked up with the CALL's offset).
         self.granularity = granularity
+        self._pending = {}            # frame -> offset of the CALL just executed, while no Python frame has been entered since
         self.target = tuple(target) if target is not None else None
         self.per_line = {}
         self.nth = None
@@ -46,8 +51,10 @@ class AbortInjector:
         sys.settrace(None)
 
     def _global(self, frame, event, arg):
+        if self.granularity == "aftercall" and self._pending:
+            self._pending.clear()     # a Python frame is being entered: the pending CALL is not a pure C call
         if frame.f_code.co_filename.startswith(SRC):
-            if self.granularity == "evalbreaker":
+            if self.granularity in ("evalbreaker", "aftercall"):
                 frame.f_trace_opcodes = True
                 frame.f_trace_lines = False
                 if self.armed and event == "call":
@@ -66,7 +73,18 @@ class AbortInjector:
             return self._local
         if not self.armed:
             return self._local
-        if self.granularity == "evalbreaker":
+        if self.granularity == "aftercall":
+            if event != "opcode":
+                return self._local
+            call_at = self._pending.pop(frame, None)
+            self._pending.clear()
+            op = frame.f_code.co_code[frame.f_lasti]
+            if op in _CALL_OPS:
+                self._pending[frame] = frame.f_lasti
+            if call_at is None or _handler_at(frame.f_code, call_at) != _handler_at(frame.f_code, frame.f_lasti):
+                return self._local
+            key = (frame.f_code.co_filename[len(SRC) + 1:], frame.f_lineno, "after-CALL", call_at)
+        elif self.granularity == "evalbreaker":
             if event != "opcode":
                 return self._local
             op = frame.f_code.co_code[frame.f_lasti]
@@ -131,6 +149,21 @@ def _inert_lines(code):
 
 
 _OPNAME = _dis.opname
+_CALL_OPS = {_dis.opmap[n] for n in ("CALL", "CALL_FUNCTION_EX") if n in _dis.opmap}
+_handler_cache = {}
+
+
+def _handler_at(code, offset):
+    """Target of the exception-table entry covering `offset` (None when unprotected)."""
+    tab = _handler_cache.get(code)
+    if tab is None:
+        tab = _handler_cache[code] = [(e.start, e.end, e.target) for e in _dis._parse_exception_table(code)]
+    for start, end, target in tab:
+        if start <= offset < end:
+            return target
+    return None
+
+
 _EVAL_BREAKER_OPS = {_dis.opmap[n] for n in ("RESUME", "JUMP_BACKWARD") if n in _dis.opmap}
 
 
